@@ -346,9 +346,15 @@ big_n = st.one_of(st.integers(513, 16384), st.integers(513, 2048),
                   st.sampled_from([513, 1023, 1024, 1025, 2047, 2048, 4095, 4096, 4097, 8191, 8192, 16383, 16384]))
 
 
+def evenly(names):
+    """an integer modulo len(names) rather than sampled_from: spreads the names evenly"""
+    names = list(names)
+    return st.integers(0, 1000 * len(names) - 1).map(lambda i: names[i % len(names)])
+
+
 @st.composite
 def large_case(draw):
-    return {"name": draw(st.sampled_from(NAMES)), "N": draw(big_n)}
+    return {"name": draw(evenly(NAMES)), "N": draw(big_n)}
 
 
 @sub("C20.large", strategy=large_case(), quick=300, thorough=12000,
@@ -376,7 +382,7 @@ def _fl(lo, hi, *special):
 
 @st.composite
 def param_case(draw):
-    name = draw(st.sampled_from(sorted(PARAMS)))
+    name = draw(evenly(sorted(PARAMS)))
     N = draw(any_n)
     if name == "kaiser":
         kw = {"beta": draw(_fl(0.0, 20.0, 0.0, 0, 5, 8.6, 20.0, 14))}
@@ -446,7 +452,7 @@ bad_value = st.one_of(st.sampled_from([1, 0.5, 2.5, 50, 4, -30, "periodic", "sym
 
 @st.composite
 def reject_case(draw):
-    name = draw(st.sampled_from(NAMES))
+    name = draw(evenly(NAMES))
     N = draw(st.one_of(st.integers(1, 64), st.sampled_from([1, 2, 3, 51, 52, 512])))
     own = PARAMS.get(name, [])
     foreign = [p for p in ALL_PARAM_NAMES if p not in own]
